@@ -33,3 +33,24 @@ package rules
 //@   requires profID != nil && len(string(prefix)) + 2 <= 28
 //@   ghost at call GetLengthLimitedID: check fixedPrefix == string(prefix) && suffix == profID.Name && maxLength == (nft ? 256 : 28)
 //@   ensures len(res) <= (nft ? 256 : 28) && hasPrefix(res, string(prefix))
+
+//@ -- ---------------------------------------------------------------- C37: policy-group chain names
+//@ -- The group id is a hash over a delimited text: selector, direction, policy count, then one line per member
+//@ -- policy.  Each member contributes its delimited textual identity {Name: .., Namespace: .., Kind: ..}, so
+//@ -- that two member lists differ in the hashed text whenever they differ in some field (for field values that
+//@ -- contain no ", " - guaranteed by Kubernetes name validation).
+//@ -- the writer appends its argument and a line break to the hashed text
+//@ func (*PolicyGroup).UniqueID$1
+//@   property C37
+//@   option safety off
+//@   option mathint
+//@   ensures hashStream == old(hashStream) + s + "\n"
+//@   assigns hashStream
+
+//@ func (*PolicyGroup).UniqueID
+//@   property C37
+//@   option safety off
+//@   option mathint
+//@   requires g != nil
+//@   ghost at call UniqueID$1#1: check s == g.Selector
+//@   ghost at call UniqueID$1#4: check policy != nil ==> s == polString(*policy)
